@@ -169,9 +169,13 @@ def check_props(pid, timeout=1500):
         res["names"] += names
         with BuildLock():
             vo = os.path.join(COQ, "props", f"{base}.vo")
-            if os.path.exists(vo):
-                os.remove(vo)
+            # first everything the props file needs (their output is not parsed: dependencies may print too) ...
             br = coq_make([f"props/{base}.vo"], timeout=timeout)
+            if br.ok:
+                # ... then the props file alone, so that exactly its Print Assumptions blocks are in the output
+                if os.path.exists(vo):
+                    os.remove(vo)
+                br = coq_make([f"props/{base}.vo"], timeout=timeout)
         res["build"] = br
         if not br.ok:
             res["ok"] = False
